@@ -30,6 +30,11 @@ pub fn proj_value(v: &blots_core::values::Value, s: &Session) -> J {
             let xs: Vec<Value> = p.reify(&s.heap.borrow()).as_list().unwrap().clone();
             json!({"t":"list","xs": xs.iter().map(|x| proj_value(x, s)).collect::<Vec<_>>()})
         }
+        Value::Record(p) => {
+            let r: Vec<(String, Value)> = p.reify(&s.heap.borrow()).as_record().unwrap().iter().map(|(k, v)| (k.clone(), *v)).collect();
+            json!({"t":"rec","ks": r.iter().map(|(k, _)| mv::string_to_cs(k).unwrap_or(json!({"raw": k}))).collect::<Vec<_>>(),
+                   "vs": r.iter().map(|(_, v)| proj_value(v, s)).collect::<Vec<_>>()})
+        }
         _ => mv::project(v, &s.heap.borrow(), Lift::Id),
     }
 }
@@ -41,6 +46,10 @@ pub fn same(exp: &J, got: &J) -> bool {
     if exp["t"] == "list" && got["t"] == "list" {
         let (a, b) = (exp["xs"].as_array().unwrap(), got["xs"].as_array().unwrap());
         return a.len() == b.len() && a.iter().zip(b.iter()).all(|(x, y)| same(x, y));
+    }
+    if exp["t"] == "rec" && got["t"] == "rec" {
+        let (a, b) = (exp["vs"].as_array().unwrap(), got["vs"].as_array().unwrap());
+        return exp["ks"] == got["ks"] && a.len() == b.len() && a.iter().zip(b.iter()).all(|(x, y)| same(x, y));
     }
     exp == got
 }
